@@ -23,6 +23,8 @@ MODELLED = {
     "src/rime/gear/selector.cc": None,
     "src/rime/gear/navigator.cc": None,
     "src/rime/gear/editor.cc": None,
+    "src/rime/gear/punctuator.cc": None,      # digit-separator functions are outside the model (configured off)
+    "src/rime/gear/shape.cc": None,
     "src/rime/service.cc": r"(Session::(ProcessKey|CommitComposition|ClearComposition|OnCommit|ResetCommitText|Activate)|"
                            r"Service::(CreateSession|GetSession|DestroySession|CleanupAllSessions))",
 }
